@@ -2,7 +2,9 @@
     BPE (2) tokenizer succeeded on configuration [q]; [None] is the constructor error (pad / prefix /
     suffix token not among the special tokens). The merge table of a BPE configuration is given in id
     order (well-formed: distinct keys, ids 0..n-1). *)
-From TU Require Import Base C01_Model C01_Proofs C04_Model C04_Proofs C04_Check.
+From TU Require Import Base C01_Model C01_Proofs C04_Model C04_Proofs C04_Check
+  MsgPack_Model C04_File C04_FileProofs.
+From Coq Require Import Permutation.
 Open Scope N_scope.
 
 (** get_vocab has exactly vocab_size entries. *)
@@ -95,3 +97,29 @@ Example bpe_witness :
     /\ token_to_id t [97;98;99] = Some 257 /\ token_to_id t [99;100] = None
     /\ b_pad (k_base t) = 261 /\ b_pre (k_base t) = [259].
 Proof. cbv zeta. eexists. split; [vm_compute; reflexivity|]. vm_compute. repeat split. Qed.
+
+(** * The merge file in the correspondence (third session; MsgPack_Model.v, MsgPack_Props.v, C04_File.v) *)
+
+(** The executable statement on the eleven fields is true of the model's output. *)
+Theorem check_run_f : forall v, check_C04f v (run_C04 v) = true.
+Proof. exact check_run_C04f_l. Qed.
+Print Assumptions check_run_f.
+
+(** An accepted correspondence on a BPE case: the eleven fields are the model's, and the merge file the tokenizer was
+    built from is [mp_encode] of the input's merges (id = position) in some order, nothing behind, the merges are
+    distinct, the file loads as exactly these merges, and the real [MergeOps::load] read these entries. *)
+Theorem agree_file_sound : forall v m a0 a1 a2 a3 a4 a5 a6 a7 a8 a9 a10 fb lv,
+  agree_C04f v m (L [a0; a1; a2; a3; a4; a5; a6; a7; a8; a9; a10; fb; lv]) = true ->
+  m = L [a0; a1; a2; a3; a4; a5; a6; a7; a8; a9; a10] /\
+  exists es, v_list v_n fb = mp_encode es /\ mp_parse (v_list v_n fb) = Some (es, []) /\
+             Permutation es (entries_of_table (in_merges v)) /\ NoDup (in_merges v) /\
+             load_table (v_list v_n fb) = Loaded (in_merges v) /\ v_entries lv = sort_items es.
+Proof. exact agree_C04f_sound_l. Qed.
+Print Assumptions agree_file_sound.
+
+Example ex_agree_file : forall a0 a1 a2 a3 a4 a5 a6 a7 a8 a9 a10,
+  let v := L [I 2; L []; L []; L []; L []; L []; L []; L []; L [L [I 97; I 98]; L [I 97; I 98; I 99]]; L []; L []] in
+  let i := L [a0; a1; a2; a3; a4; a5; a6; a7; a8; a9; a10; L [I 130; I 147; I 97; I 98; I 99; I 1; I 146; I 97; I 98; I 0];
+              L [L [I 0; L [I 97; I 98]]; L [I 1; L [I 97; I 98; I 99]]]] in
+  saved_agree (in_merges v) (v_nth 11 i) (v_nth 12 i) = true.
+Proof. intros. vm_compute. reflexivity. Qed.
